@@ -35,6 +35,15 @@ CHECKS.update({
             "Domain: every call addressed to the bridge is a claim call; traces come from a fake debug_traceTransaction.", "DESIGN.md §4 C20"),
 })
 
+CHECKS.update({
+    "C01": ("exploration", "runtime monitor: real bridge bytecode in an in-process EVM as oracle (root after every deposit, getLeafValue), reference frontier validated against it, synthetic pre-states for high indices",
+            "Deposit sequences are executed by the real PolygonZkEVMBridgeV2 bytecode; its BridgeEvent logs are fed to the real processor under 6 block partitions x restart schedules and GetExitRootByIndex / GetRootByLER / GetBridges are compared with the contract's root after each deposit and its leaf values. Longer sequences and indices around every 2^k (k=7..31, via a pre-state of N constant leaves computed by the reference) are checked against the reference frontier, which the same run compares with the EVM on every low-index case.",
+            "High indices are reached through synthetic pre-states (root row + the 32 path nodes), not by 2^k real appends; metadata comes from bridgeMessage.", "DESIGN.md §4 C01"),
+    "C08": ("exploration", "runtime monitor: bottom-up recomputation with reference leaves for every (recorded root, present position) pair; sample re-verified by the L1 contract's verifyMerkleProof bytecode",
+            "Stores built from random histories, also after reorgs with continuation forks, restarts and blocks that failed once (injected storage fault, incl. failing commit) and were retried: for every recorded root version and every position present under it the served proof must hash, with the reference leaf, to exactly that root (exit tree, L1 info tree, rollup exit tree), and GetLocalExitRoot must return the value last written as of that root. A sample of proofs is also verified by the real GlobalExitRootV2.verifyMerkleProof bytecode.",
+            "All pairs are enumerated for the generated tree sizes (quick <= ~100 leaves); high-index proofs are covered in C01's pre-state campaign.", "DESIGN.md §4 C08"),
+})
+
 # properties not (yet) claimed: reason
 NOT_APPLICABLE = {
 }
